@@ -30,6 +30,8 @@ import Relic.Driver.Appx
 import Relic.Driver.Deb
 import Relic.Driver.ApkVerify
 import Relic.Driver.XmlSig
+import Relic.Driver.Magic
+import Relic.Driver.Vsix
 open Relic
 
 def dispatch (line : String) : String :=
@@ -69,6 +71,8 @@ def dispatch (line : String) : String :=
   | "XAPSIG" :: rest => Relic.Driver.C11.handleXap rest
   | "BINLOAD" :: rest => Relic.Driver.C11.handleBin rest
   | "XSIG" :: rest => Relic.Driver.XmlSig.handle rest
+  | "MAGIC" :: rest => Relic.Driver.Magic.handle rest
+  | "VSIX" :: rest => Relic.Driver.Vsix.handle rest
   | _ => "bad-op"
 
 partial def loop (h : IO.FS.Stream) (out : IO.FS.Stream) : IO Unit := do
